@@ -203,6 +203,28 @@ def f16_gitignore_unreadable(xcp, d):
             bad.append("%s: exit 0 and the excluded secret.key was copied" % drv)
     return bad
 
+def f17_noclobber_dangling(xcp, d):
+    """C08: -n with a dangling symlink at the mapped destination must refuse, not write through the link"""
+    bad = []
+    for drv in ("parfile", "parblock"):
+        w = os.path.join(d, drv); os.makedirs(os.path.join(w, "dest"))
+        open(os.path.join(w, "f"), "w").write("new\n"); os.symlink(os.path.join(w, "outside"), os.path.join(w, "dest", "f"))
+        rc, err = run(xcp, ["-n", "--driver", drv, "f", "dest/"], w)
+        if rc == 0 or os.path.exists(os.path.join(w, "outside")):
+            bad.append("%s: exit %d, link target created outside the destination: %s" % (drv, rc, os.path.exists(os.path.join(w, "outside"))))
+    return bad
+
+def f18_special_over_dangling(xcp, d):
+    """C14: a FIFO copied onto a dangling symlink replaces it (and respects -n)"""
+    bad = []
+    for drv in ("parfile", "parblock"):
+        w = os.path.join(d, drv); os.makedirs(w)
+        os.mkfifo(os.path.join(w, "p")); os.symlink("nowhere", os.path.join(w, "o"))
+        rc, err = run(xcp, ["--driver", drv, "p", "o"], w)
+        if rc != 0 or not stat.S_ISFIFO(os.lstat(os.path.join(w, "o")).st_mode):
+            bad.append("%s: exit %d, destination is a FIFO: %s" % (drv, rc, stat.S_ISFIFO(os.lstat(os.path.join(w, "o")).st_mode)))
+    return bad
+
 ALL = {"new:create-before-identity-check": f1_self_copy, "parfile:symlink-result-discarded": f2_symlink_result,
        "copy_node:dev-not-rdev": f3_device_number, "parblock:short-copy-not-retried": f5_short_copy,
        "walker:deref-does-not-follow-dir-links": f8_deref_dir_link, "finalise:chown-after-chmod": f9_setid_ownership,
@@ -212,7 +234,8 @@ ALL = {"new:create-before-identity-check": f1_self_copy, "parfile:symlink-result
        "walker:dotdot-source-outside-dest": f12_dotdot_source,
        "walker:root-symlink-followed": f13_root_symlink,
        "walker:gitignore-root-filtered": f14_gitignore_root, "walker:gitignore-isdir-follows-links": f15_gitignore_dirlink,
-       "walker:gitignore-error-dropped": f16_gitignore_unreadable}
+       "walker:gitignore-error-dropped": f16_gitignore_unreadable,
+       "walker:noclobber-dangling-link": f17_noclobber_dangling, "worker-special:dangling-link-not-replaced": f18_special_over_dangling}
 
 def main():
     repo = sys.argv[1]
